@@ -15,7 +15,7 @@ var effectFreePkgs = map[string]bool{
 	"runtime": true, "unicode/utf8": true, "unicode": true, "github.com/rcrowley/go-metrics": true, "time": true,
 	"github.com/pkg/errors": true, "bytes": true, "sort": true, "encoding/base64": true, "encoding/hex": true,
 	"github.com/godaddy/asherah/go/appencryption/pkg/log": true, "github.com/godaddy/asherah/go/securememory/log": true,
-	"log": true, "os": true, "runtime/debug": true, "io": true, "reflect": true, "regexp": true, "encoding/json": true, "hash/fnv": true,
+	"log": true, "os": true, "runtime/debug": true, "github.com/aws/aws-sdk-go-v2/feature/dynamodb/expression": true, "github.com/aws/aws-sdk-go/service/dynamodb/expression": true, "io": true, "reflect": true, "regexp": true, "encoding/json": true, "hash/fnv": true,
 }
 
 func pkgPathOfFunc(fn *ssa.Function) string {
